@@ -34,6 +34,39 @@ Proof.
   - f_equal. apply IH; [lia|exact Hn].
 Qed.
 
+(* ---------- the arithmetic of the recovered position (torn_recover) ---------- *)
+Lemma torn_abs_arith (FBk Bk base lo nfl wf wo ln f1o wf0 wo0 pf j : N) :
+  0 < Bk -> base <= lo -> lo <= wf0 ->
+  nfl + lo = wf + 1 -> 1 <= nfl ->
+  wf * FBk + wo + ln = f1o ->
+  j <= ln ->
+  (wf0 - base) * FBk + wo0 = pf ->
+  (forall m, (lo - base) * FBk + ((nfl - 1) * FBk + wo) + j <= m * Bk ->
+             (lo - base) * FBk <= m * Bk -> pf <= m * Bk) ->
+  wf0 * FBk + wo0 <= f1o + Bk.
+Proof.
+  intros HB Hbase Hlo0 Hn Hn1 Hposeq Hj Hpos0 Hup.
+  set (c0 := (lo - base) * FBk + ((nfl - 1) * FBk + wo)) in *.
+  assert (Ec0 : base * FBk + c0 = wf * FBk + wo).
+  { unfold c0. replace (nfl - 1) with (wf - lo) by lia.
+    assert (E : wf * FBk = base * FBk + (lo - base) * FBk + (wf - lo) * FBk).
+    { rewrite <- !N.mul_add_distr_r. f_equal. lia. }
+    lia. }
+  assert (Hbc0 : (lo - base) * FBk <= c0) by (unfold c0; apply N.le_add_r).
+  clearbody c0.
+  set (cend := c0 + ln).
+  pose proof (N.div_mod cend Bk ltac:(lia)) as Hdm.
+  pose proof (N.mod_lt cend Bk ltac:(lia)) as Hml.
+  set (qq := cend / Bk) in *.
+  assert (Eq1 : (qq + 1) * Bk = Bk * qq + Bk).
+  { rewrite N.mul_add_distr_r, N.mul_1_l, (N.mul_comm qq Bk). reflexivity. }
+  assert (Hpf : pf <= (qq + 1) * Bk).
+  { apply Hup; rewrite Eq1; unfold cend in Hdm; lia. }
+  assert (E0 : wf0 * FBk = base * FBk + (wf0 - base) * FBk).
+  { rewrite <- N.mul_add_distr_r. f_equal. lia. }
+  unfold cend in Hdm. lia.
+Qed.
+
 Section PSurvive.
 Variable P : params.
 Hypothesis HBS_lo : 7 < BS P.
@@ -150,14 +183,14 @@ Proof.
   (* the first tracked file of st_x *)
   assert (Hlox : wlo (s_wr st_x) = lo).
   { destruct Halt as [(-> & Hmid)|(m' & -> & Hw')].
-    - destruct (Nat.eq_dec m (length h_all)) as [->|Hne]; [|apply Hwlo_int; lia].
+    - destruct (Nat.eq_dec m (length h_all)) as [->|Hne]; [|apply Hwlo_int; clear - Hne Hm; lia].
       rewrite firstn_all. destruct h_all as [|c h'] eqn:Eh; [reflexivity|]. rewrite <- Eh in *.
       assert (Hlen1 : length h_all = S (length h')) by (rewrite Eh; reflexivity).
       destruct (nth_error h_all (length h')) as [[o t]|] eqn:En.
-      2:{ apply nth_error_None in En. lia. }
+      2:{ apply nth_error_None in En. clear - En Hlen1. lia. }
       pose proof (nth_error_split_last h_all _ _ Hlen1 En) as Esp.
       apply (Hwlo_fin _ o t Esp). apply (Hmid (length h') o t); [exact Hlen1|exact En].
-    - rewrite Hw'. apply Hwlo_int. lia. }
+    - rewrite Hw'. apply Hwlo_int. clear - Hm. lia. }
   (* the entries of st_x's ghost *)
   assert (EALL : gh_ALL G_x = E_pre ++ (E_suf ++ Xd)).
   { unfold gh_ALL. rewrite Edx, Elx, map_app, Hl1, app_assoc. fold (gh_ALL G_g). now rewrite HE, <- app_assoc. }
@@ -166,7 +199,7 @@ Proof.
   { rewrite Hlox, Ebx. fold base. rewrite EALL, app_assoc, <- HE, !map_app.
     destruct (delivered_from_app P HBS_lo HBS_hi Hcrc ((lo - base) * FB) (sr (gh_ALL G_g)) 0 (sr Xd))
       as [Ed _].
-    - rewrite (HN cursor_after_0). fold (gh_ser G_g). fold (gh_T P G_g). fold T. lia.
+    - rewrite (HN cursor_after_0). fold (gh_ser G_g). fold (gh_T P G_g). fold T. clear - Hbc0 Hc2. lia.
     - rewrite Ed, Hsuf. reflexivity. }
   assert (Htl : length tags = length (E_suf ++ Xd)).
   { destruct Hspec as (Hlt & _). rewrite Hlt, starts_length, map_length. reflexivity. }
@@ -178,15 +211,16 @@ Proof.
   set (st_r0 := mkSt w0 qs' pol).
   assert (Hrinv : rinvx P lo (s_wr st_r0)).
   { exists n. cbn [st_r0 s_wr].
-    split; [exact Hfl0|]. split; [exact Hlo0|]. split; [exact Hhi0|]. split; [lia|].
+    split; [exact Hfl0|]. split; [exact Hlo0|]. split; [exact Hhi0|]. split; [clear - Hhi0 Ehi Hhiu; lia|].
     split; [exact Hplan0|]. split; [apply wf_nil; exact Hpend0|]. split; [exact Hoff0|].
     rewrite (vfs_nil w0 Hpend0), Hfs0. unfold fs_ext. rewrite Ehi. split.
     - intros f Hf. destruct (N.eq_dec f hi) as [->|Hne].
       + eexists. apply PolicyProofs.fs_get_put_same.
-      + rewrite GcProofs.fs_get_put_other by (apply filename_neq; lia).
-        destruct (Hfilesi f ltac:(lia)) as (b & Hgb & _). now exists b.
-    - intros f H1 H2'. rewrite GcProofs.fs_get_put_other by (apply filename_neq; lia).
-      apply Hfreshi; lia. }
+      + rewrite GcProofs.fs_get_put_other by (apply filename_neq; clear - Hf Hne Hhiu; lia).
+        destruct (Hfilesi f ltac:(clear - Hf; lia)) as (b & Hgb & _). now exists b.
+    - intros f H1 H2'.
+      rewrite GcProofs.fs_get_put_other by (apply filename_neq; clear - H1 H2' Hhiu; lia).
+      apply Hfreshi; clear - H1 H2'; lia. }
   assert (Hex : pos_extra (absq (stN st_g h_all m)) (map snd (gc_log P st_r0 hint))).
   { apply (pos_extra_ext (abs_qs qs')); [intros q; now rewrite Heq, Hqx|].
     exact (gc_log_pos_extra P st_r0 hint Hnd'). }
@@ -196,22 +230,9 @@ Proof.
     pose proof Hw as (Hok & _ & Hoff & _).
     destruct (wr_ok_len P (HN HB0) HNB w Hok) as (Hn & Hn1). fold lo in Hn.
     destruct (HW wtrace_pos _ _ _ _ _ _ Htr Hoff) as (_ & Hposeq).
-    assert (Ec0 : base * FB + c0 = w_file w * FB + w_off w).
-    { unfold c0, wpos. replace (lenN (w_files w) - 1) with (w_file w - lo) by lia.
-      assert (E : w_file w * FB = base * FB + (lo - base) * FB + (w_file w - lo) * FB).
-      { rewrite <- !N.mul_add_distr_r. f_equal. lia. }
-      lia. }
-    set (cend := c0 + lenN NEW).
-    pose proof (N.div_mod cend B ltac:(lia)) as Hdm.
-    pose proof (N.mod_lt cend B ltac:(lia)) as Hml.
-    set (qq := cend / B) in *.
-    assert (Eq1 : (qq + 1) * B = B * qq + B).
-    { rewrite N.mul_add_distr_r, N.mul_1_l, (N.mul_comm qq B). reflexivity. }
-    assert (Hpf : pf <= (qq + 1) * B).
-    { apply Hup; rewrite Eq1; unfold cend in Hdm; lia. }
-    assert (E0 : w_file w0 * FB = base * FB + (w_file w0 - base) * FB).
-    { rewrite <- N.mul_add_distr_r. f_equal. lia. }
-    unfold cend in Hdm. lia. }
+    exact (torn_abs_arith FB B base lo (lenN (w_files w)) (w_file w) (w_off w) (lenN NEW)
+             (f1 * FB + off1) (w_file w0) (w_off w0) pf j (N.lt_trans 0 7 B eq_refl HBS_lo)
+             Hbase Hlo0 Hn Hn1 Hposeq Hj Hpos0 Hup). }
   destruct (rgc_ok P HBS_lo HBS_hi HNB Hcrc HGC lo st_r0 hint Hrinv Hpend0 Hbd)
     as (st_r & k & Egc & Eqs & _).
   exists m, st_r. split; [exact Hm|]. split.
